@@ -222,6 +222,10 @@ def _shard(shard, nshards, tier, seed):
             if code0[0] in (0xDD, 0xFD) and code0[1] != 0xCB:
                 # a positive displacement: (IX+d) on the other side of a contention boundary from IX itself
                 fills = FILLINGS + ((0x05, 0x60),)
+            probe = z80ref.decode([code0[0], code0[1], 0x34, 0x12 if code0[1] != 0xCB else code0[3], 0, 0], 0)
+            if probe.op in ('ld_mm_rr', 'ld_rr_mm', 'ld_nn_a', 'ld_a_nn'):
+                # a 16-bit access at (nn) whose two bytes lie on different sides of a contention boundary
+                fills = fills + ((0xFF, 0x3F), (0xFF, 0x7F), (0xFF, 0xBF))
             for (n1, n2), pc, (rname, rset) in itertools.product(fills, pcs, rsets):
                 ddcb = code0[0] in (0xDD, 0xFD) and code0[1] == 0xCB
                 if ddcb:
@@ -280,7 +284,7 @@ def run(tier, seed):
     stats.traces = stats.evaluations
     meta = dict(
         rule='(i) both delay tables complete: one NOP in contended memory at every frame position (69888 + 2 x 70908); (ii) every opcode slot x 2 '
-             'operand fillings x PC placement {{uncontended, contended, straddling 0x7FFE/0xBFFE, 0xC000}} x register/stack/port placement sets x I '
+             'operand fillings (+ displacement +5 for DD/FD slots, + nn = 0x3FFF/0x7FFF/0xBFFF for LD through (nn)) x PC placement {{uncontended, contended, straddling 0x7FFE/0xBFFE, 0xC000}} x register/stack/port placement sets x I '
              '(for instructions with refresh-address cycles) x both condition outcomes (block instructions: also BC=1, B=1 and A=(HL)) x frame positions ({} per machine: every phase of the pattern '
              'at both ends of the window, first/middle/last line, frame edges) on 48K, 128K even bank, 128K odd bank; oracle = z80ref bus cycles + '
              'ula.delay. states = distinct (machine, op class, placement) classes; non-trivial = distinct slots per machine'.format(
